@@ -29,9 +29,9 @@ func init() {
 		Level: "exploration",
 		Rule: "seeded snowman-legal engine call sequences (<=40 calls: propose external blocks incl. invalid ones on any known parent, parse incl. already known/accepted/verified blocks, verify only under a verified-or-accepted parent, build + verify of built blocks, set preference, accept a verified child of the last accepted block followed by rejection of every conflicting processing block, lookups) over forking trees, against the real snow.VM wrapping a recording test chain, with parsed-block cache 1/2/128 and accepted-block cache 1/2/3/128, the async accepter goroutine interleaved by the seeded scheduler (incl. starving it so that accepts queue up); " +
 			"oracle = contract automaton + recorder: verify only with the verified/accepted parent's output, accept exactly once per accepted block in height order with the accepted parent, never for a rejected block, notification multisets equal the engine's decisions, lookups agree with the engine's accepted chain at every step; non-trivial = >=1 fork or >=2 queued accepts; distinct = (call sequence, schedule) hashes",
-		Exec: c20,
-		Real: []string{"snow.VM (ParseBlock, BuildBlock, GetBlock, GetBlockIDAtHeight, LastAccepted, SetPreference)", "snow.StatefulBlock (Verify, Accept, Reject, async accept queue)", "internal/cache.FIFO", "avalanchego cache.LRU"},
-		Stub: []string{"consensus engine (snowman contract automaton)", "chain (recording test chain with valid/invalid blocks)", "chain index (in-memory map)", "goroutine scheduling"},
+		Exec:        c20,
+		Real:        []string{"snow.VM (ParseBlock, BuildBlock, GetBlock, GetBlockIDAtHeight, LastAccepted, SetPreference)", "snow.StatefulBlock (Verify, Accept, Reject, async accept queue)", "internal/cache.FIFO", "avalanchego cache.LRU"},
+		Stub:        []string{"consensus engine (snowman contract automaton)", "chain (recording test chain with valid/invalid blocks)", "chain index (in-memory map)", "goroutine scheduling"},
 		Assumptions: []string{"for locally built blocks, which the wrapper treats as verified, 0 or 1 verified notification is accepted"},
 	})
 }
